@@ -437,6 +437,9 @@ def explore(tier, seed, props, light=False):
     depth = 2 if tier == 'quick' else 3
     cfgs = CONFIGS if tier != 'quick' else [CONFIGS[0], CONFIGS[3], CONFIGS[5], CONFIGS[6]]
     jobs = [(c, depth, props, first) for c in cfgs for first in [None] + alphabet(c['family'])]
+    if tier == 'quick':
+        # the configurations the quick tier leaves to the thorough one are still explored to depth 1
+        jobs += [(c, 1, props, None) for c in CONFIGS if c not in cfgs]
     k = seed % len(jobs)
     jobs = jobs[k:] + jobs[:k]
     tot = dict(histories=0, states=0, edges=0, violations=[])
